@@ -50,9 +50,10 @@ CLASSES = (
     'interface-body-named-like-module-procedure',   # * interface body and contained procedure of one name get each other's parts
     'fypp-line-markers',              # `# 1 "file"` markers are written once and dropped by the sanitiser on re-reading (C05)
     'sanitizer-reinserted-stmt',      # statements rewritten by the sanitiser (OPEN ... NEWUNIT=) keep their source indentation
-    'string-doubled-quote',           # 'shouldn''t' inside PRINT: value with / without the doubled quote
+    'string-doubled-quote',           # PRINT *, "shouldn't" in a routine with !$loki pragmas: StringLiteral value raw (see dq-literal-…)
+    'dq-literal-apostrophe-raw-value',  # "it's": StringLiteral keeps the raw text between the quotes; written 'it''s', re-read value it''s
 )
-PREDICATE_ONLY = ('select-empty-case', 'interface-body-named-like-module-procedure', 'fypp-line-markers', 'sanitizer-reinserted-stmt', 'string-doubled-quote')
+PREDICATE_ONLY = ('select-empty-case', 'interface-body-named-like-module-procedure', 'fypp-line-markers', 'sanitizer-reinserted-stmt')
 
 
 def _loki():
@@ -109,6 +110,8 @@ class Dump:
                             flat.append(c)
                 go(e)
                 return '<' + type(e).__name__ + ' (' + ' '.join(self.x(c) for c in flat) + ')>'
+            if 'dq-literal-apostrophe-raw-value' in self.norm and isinstance(e, sym.StringLiteral):
+                return '<StringLiteral ' + repr(str(e.value).replace("''", "'")) + '>'      # ONE pass: 'it''''s' stays different
             if 'unary-plus' in self.norm and isinstance(e, pmbl.Sum) and len(e.children) == 1:
                 return self.x(e.children[0])
             if 'do-step-one-dropped' in self.norm and isinstance(e, sym.LoopRange) and e.step is not None and str(e.step) == '1':
@@ -164,6 +167,12 @@ class Dump:
                 parts.append(self.n(n.body) if n.body is not None else '-')
             parts.append(self.n(n.contains) if n.contains is not None else '-')
             return '{' + ' '.join(parts) + '}'
+        if isinstance(n, ir.PrintStmt) and 'string-doubled-quote' in self.norm and 'dq-literal-apostrophe-raw-value' not in self.norm:
+            self.norm.add('dq-literal-apostrophe-raw-value')        # the same one-pass normalisation, only inside this PRINT
+            try:
+                return self.n(n)
+            finally:
+                self.norm.discard('dq-literal-apostrophe-raw-value')
         if isinstance(n, ir.Node):
             parts = [type(n).__name__]
             for k in n.__dataclass_fields__:
@@ -322,14 +331,54 @@ _RE = {
 }
 
 
+def _dq_apostrophe_lines(src):
+    """the lines on which a character literal delimited by double quotes contains an apostrophe (literals scanned with both quote
+    kinds, comments skipped)"""
+    found = []
+    for line in src.split('\n'):
+        i, n = 0, len(line)
+        while i < n:
+            ch = line[i]
+            if ch == '!':
+                break
+            if ch in '\'"':
+                j = i + 1
+                body = []
+                while j < n:
+                    if line[j] == ch:
+                        if j + 1 < n and line[j + 1] == ch:
+                            body.append(ch); j += 2
+                            continue
+                        break
+                    body.append(line[j]); j += 1
+                if ch == '"' and "'" in body:
+                    found.append(line)
+                    break
+                i = j + 1
+            else:
+                i += 1
+    return found
+
+
+def _has_dq_apostrophe(src):
+    return bool(_dq_apostrophe_lines(src))
+
+
 def text_flags(src):
     fl = {c for c, r in _RE.items() if r.search(src)}
     if re.search(r'^\s*#\s*\d+\s+"', src, re.M):
         fl.add('fypp-line-markers')
     if re.search(r'newunit\s*=|convert\s*=', src, re.I):
         fl.add('sanitizer-reinserted-stmt')
-    if re.search(r"'[^'\n]*''[^'\n]*'", src):
-        fl.add('string-doubled-quote')
+    # one phenomenon, two classes: inside a PRINT statement of a routine text with !$loki pragmas (the listed class
+    # `string-doubled-quote`), and everywhere else (`dq-literal-apostrophe-raw-value`)
+    dq_lines = _dq_apostrophe_lines(src)
+    has_pragma = bool(re.search(r'^\s*!\$loki\b', src, re.I | re.M))
+    for line in dq_lines:
+        if has_pragma and re.match(r'\s*print\b', line, re.I):
+            fl.add('string-doubled-quote')
+        else:
+            fl.add('dq-literal-apostrophe-raw-value')
     if re.search(r'^\s*(abstract\s+)?interface\b', src, re.I | re.M):
         names = re.findall(r'^\s*(?:\w+\s+)*?(?:subroutine|function)\s+(\w+)', src, re.I | re.M)
         names = [n.lower() for n in names if n.lower() not in ('subroutine', 'function')]
@@ -683,6 +732,82 @@ class ScalarGen:
 
 
 # ---------------------------------------------------------------------------------------------------------------
+# generator of raw source text for the constructs that only exist in text: inline comments on statements that fgen has to wrap
+# (or that were continued in the source), character literals with apostrophes in every expression position
+
+class TextGen:
+    APOS = ["it''s", "''", "''x''", "a''''b", "o''clock ''n''", "x''", "''y", "plain", 'say "hi"', "a '' b"]
+
+    def __init__(self, rng, dq=False):
+        self.rng = rng
+        self.dq = dq          # also write literals with apostrophes between double quotes (known class on the unchanged code)
+
+    def lit(self):
+        r = self.rng
+        body = r.choice(self.APOS)
+        if self.dq and "''" in body and '"' not in body and r.random() < 0.5:
+            return '"' + body.replace("''", "'") + '"'
+        return "'" + body + "'"
+
+    def long_expr(self, n):
+        r = self.rng
+        terms = []
+        for k in range(n):
+            t = r.choice(['a(i)*b(i)', 'b(i)*c(i)*a(i)', 'c(i)', 'a(i + %d)' % k, '%d.0' % (k + 1), 'x*%d.5' % k, '(a(i) - b(i))/2.0'])
+            terms.append(t)
+        return ' + '.join(terms)
+
+    def unit(self, name):
+        r = self.rng
+        L = ['subroutine %s(n, a, b, c, x, msg, k)' % name, '  implicit none', '  integer, intent(in) :: n  ! extent']
+        decl_names = ', '.join('%s_long_work_array_%d(n, n)' % (name, j) for j in range(r.randrange(1, 9)))
+        c = r.choice(['  ! work arrays', ' ! w', '   !many', ''])
+        if r.random() < 0.4:      # continued in the source, comment behind the last line
+            parts = decl_names.split(', ')
+            L.append('  real :: ' + ', &\n    & '.join(parts) + c)
+        else:
+            L.append('  real :: ' + decl_names + c)
+        L += ['  real, intent(inout) :: a(n + 20), b(n + 20), c(n + 20)  ! data', '  real, intent(inout) :: x',
+              '  character(len=32), intent(inout) :: msg  ! text', '  integer, intent(out) :: k', '  integer :: i']
+        if r.random() < 0.6:
+            L.append('  character(len=*), parameter :: tag = %s  ! constant' % self.lit())
+        if r.random() < 0.4:
+            L.append('  procedure(real), pointer :: %s  ! procedure pointers' % ', '.join('fp_%d_with_a_long_name_to_fill_the_line' % j
+                                                                                        for j in range(r.randrange(1, 6))))
+        L.append('  k = 0  ! start')
+        for _ in range(r.randrange(3, 8)):
+            q = r.random()
+            ind = '  '
+            if q < 0.3:
+                e = self.long_expr(r.randrange(2, 22))
+                cm = r.choice(['  ! accumulate', ' ! acc', '  !x', ''])
+                if r.random() < 0.35:
+                    ts = e.split(' + ')
+                    h = max(1, len(ts) // 2)
+                    L.append(ind + 'do i = 1, n')
+                    L.append(ind + '  x = x + ' + ' + '.join(ts[:h]) + ' + &\n' + ind + '    & ' + ' + '.join(ts[h:]) + cm)
+                    L.append(ind + 'end do')
+                else:
+                    L += [ind + 'do i = 1, n', ind + '  x = x + ' + e + cm, ind + 'end do']
+            elif q < 0.5:
+                L.append(ind + 'msg = ' + self.lit() + r.choice(['', '  ! set', ' ! its']))
+            elif q < 0.65:
+                L.append(ind + 'call report(' + self.lit() + ', k, ' + self.lit() + ')' + r.choice(['', '  ! call']))
+            elif q < 0.8:
+                L += [ind + 'if (msg == ' + self.lit() + ' .or. msg /= ' + self.lit() + ') then', ind + '  k = k + 1  ! count',
+                      ind + 'end if']
+            elif q < 0.9:
+                L.append(ind + 'msg = ' + self.lit() + ' // ' + self.lit() + ' // trim(msg)')
+            else:
+                L.append(ind + 'a(1) = ' + self.long_expr(r.randrange(1, 4)).replace('(i', '(1') + '  ! short')
+        L.append('end subroutine %s' % name)
+        return L
+
+    def source(self):
+        return '\n'.join(self.unit('tg1') + ([''] + self.unit('tg2') if self.rng.random() < 0.3 else [])) + '\n'
+
+
+# ---------------------------------------------------------------------------------------------------------------
 # repository sources
 
 def repo_files():
@@ -786,7 +911,11 @@ class C02(Prop):
         for k in range(n_lines):
             g = ScalarGen(rng, hazards=(k % 3 != 0))
             p = g.program()
-            src = fir.emit_fortran(p, wrap_program=False)
+            if k % 3 == 1:      # the same program in another legal layout (CASE DEFAULT first / in the middle, orders of cases, declarations, units)
+                from .c01 import emit_layout
+                src = emit_layout(p, rng.randrange(10 ** 6), lean=True)[0]
+            else:
+                src = fir.emit_fortran(p, wrap_program=False)
             style = STYLES[k % 2]
             yield Case([A('c02'), A('lines'), A(style), lex_text(src)], stream='lines')
         cfgs = [None, {'weights': {'select': 12, 'if': 14, 'assoc': 8}, 'max_stmts': 18},
@@ -797,6 +926,13 @@ class C02(Prop):
             cfg = cfgs[k % len(cfgs)]
             p = fir.gen_program(rng, cfg)
             yield Case([A('c02'), A('fir'), A(STYLES[k % 2]), p], stream='fir')
+        n_text = {'quick': 6, 'thorough': 120, 'search': 40}[tier]
+        from ..core import load_known
+        dq_listed = any(k['property'] == 'C02' and k['class'] == 'dq-literal-apostrophe-raw-value' and k.get('status', 'open') == 'open'
+                        for k in load_known())      # inputs of a class are generated only once the class is listed
+        for k in range(n_text):
+            src = TextGen(rng, dq=(dq_listed and k % 3 == 2)).source()
+            yield Case([A('c02'), A('src'), A(STYLES[k % 2]), src], stream='text')
         files = repo_files()
         if tier == 'quick':
             files = files[rng.randrange(5)::5]
